@@ -24,6 +24,7 @@ EXPLANATION = (
     "floating-point rounding inside the bounds.")
 EXPLANATION += (' wrap_env is forwarded unchanged by every world subclass constructor and stored as given; clamps written as statements or conditional expressions have the min/max normal form; a removal path that found no PositionComponent on the leaving agent has nothing to detach.')
 EXPLANATION += (' Coordinates and offsets are never passed to a function that converts to a C double (math.* except floor / ceil / trunc, float()).')
+EXPLANATION += (" Premise: C03's accessor, join / leave and registration rules.")
 ASSUMPTIONS = ["extents are 0 or >= 1 and finite; grid coordinates are integers (quantifier)",
                "Python's % with positive modulus lies in [0, modulus) for ints and [0, modulus] for floats",
                "user code does not write position fields directly"]
@@ -119,7 +120,7 @@ def run(cx: Cx):
     for ax, _, _ in AXES:
         for s in cx.effects.sites_of((PC, ax)):
             n_sites += 1
-            if s.owner_q not in verified:
+            if not s.owned_within(verified):
                 cx.violation('R-BOUND', s.fn.qualname, f"unbounded-position-write-{ax}",
                              f"{s.describe()}: a position field is written outside move/move_to/the constructor; its value "
                              f"is not bounded by the world's extents", where=s.where)
@@ -475,6 +476,11 @@ def _drop_nonposition_atoms(S):
 
 def _premises(cx):
     from .common import include_premises
+    _ACC = ('.get_component', '.__getitem__', '.add_component', '.remove_component', '.register_component', '.deregister_component',
+            'Environment.add_agent', 'Environment.remove_agent')
+    include_premises(cx, ['C03'], "the position a world reads and writes is the agent's own PositionComponent (look-up by exact type), and "
+                     "joining / leaving registers with the world's own model: C03's accessor and join / leave rules",
+                     only=lambda o: (o.function or '').endswith(_ACC))
     include_premises(cx, ['C04'], 'a rejected placement changes nothing and an accepted one adds exactly this agent: residency is kept by C04\'s rules',
                      only=lambda o: o.rule in ('R-DISC', 'R-ATOMIC') and (o.function.endswith('.add_agent') or o.function.endswith('.remove_agent')))
 
